@@ -383,8 +383,13 @@ def eval_int_helper(sb_tu, name, bits, convs):
                 raise pe.PEError('append of a symbolic string')
             got.append(s_)
             return 1
+        def one(interp, args, node):
+            if not isinstance(args[1], int):
+                raise pe.PEError('append of a symbolic character')
+            got.append(chr(args[1] & 0xFF))
+            return 1
         it = pe.Interp([sb_tu], {'sprintf': emit._sprintf, 'stringBuilderAppendSized': sized, 'stringBuilderAppend': plain,
-                                 'strlen': emit._strlen})
+                                 'stringBuilderAppendChar': one, 'strlen': emit._strlen})
         it.cur_tu = sb_tu
         arg = v if hexa or v < top else v - (1 << bits)
         try:
